@@ -132,6 +132,15 @@ func init() {
 	models[tm+"Before"] = func(m *Machine, _ *Frame, _ *ssa.CallCommon, a []Val) Val { aTime(m); return Lt(term(a[0]), term(a[1])) }
 	models[tm+"Equal"] = func(m *Machine, _ *Frame, _ *ssa.CallCommon, a []Val) Val { aTime(m); return Eq(term(a[0]), term(a[1])) }
 	models[tm+"Add"] = func(m *Machine, _ *Frame, _ *ssa.CallCommon, a []Val) Val { aTime(m); return Add(term(a[0]), term(a[1])) }
+	// time.Duration.Round(m): nearest multiple of m, halves away from zero (m <= 0 returns d); Truncate: toward zero
+	models["(time.Duration).Round"] = func(m *Machine, _ *Frame, _ *ssa.CallCommon, a []Val) Val {
+		d, mm := term(a[0]).S, term(a[1]).S
+		return T(SInt, fmt.Sprintf("(ite (<= %[2]s 0) %[1]s (let ((r (tmod %[1]s %[2]s))) (ite (< %[1]s 0) (let ((rr (- r))) (ite (< (+ rr rr) %[2]s) (+ %[1]s rr) (- (+ %[1]s rr) %[2]s))) (ite (< (+ r r) %[2]s) (- %[1]s r) (- (+ %[1]s %[2]s) r)))))", d, mm))
+	}
+	models["(time.Duration).Truncate"] = func(m *Machine, _ *Frame, _ *ssa.CallCommon, a []Val) Val {
+		d, mm := term(a[0]).S, term(a[1]).S
+		return T(SInt, fmt.Sprintf("(ite (<= %[2]s 0) %[1]s (- %[1]s (tmod %[1]s %[2]s)))", d, mm))
+	}
 	models[tm+"Unix"] = func(m *Machine, _ *Frame, _ *ssa.CallCommon, a []Val) Val {
 		aTime(m)
 		return T(SInt, "(div "+term(a[0]).S+" 1000000000)")
